@@ -1193,6 +1193,15 @@ func (sys *System) DeleteLocation(ctx *Context, location string) error {
 		Log(WARN, ctx, "System.DeleteLocation", "location", location)
 		Metric(ctx, "System.DeleteLocation", "DeleteLocation", "location", location)
 		err = loc.Delete(ctx)
+		if err == nil {
+			// Forget the cached instance.  The location is gone,
+			// so the next request has to open it again (and, with
+			// existence checking, find that it doesn't exist)
+			// whatever the cache TTL is.
+			sys.CachedLocations.Lock()
+			delete(sys.CachedLocations.locs, location)
+			sys.CachedLocations.Unlock()
+		}
 	}
 	atomic.AddUint64(&sys.stats.TotalTime, uint64(Now()-then))
 	return sys.stats.IncErrors(err)
